@@ -34,6 +34,7 @@ import (
 //	chain <c> state=0|1 age=<s since purchase> len=<s> hr=<GHS> payload=<kind>     (chain state, no event)
 //	startnode | restart
 //	purchased <c> [len=<s> hr=<GHS>] payload=<kind> | closed <c> | destupdate <c> payload=<kind> | advance <s>
+//	otherevent <c>                        (the contract emits an event the node does not handle: fundsClaimed)
 //	termsupdate <c> len=<s> hr=<GHS>      (the seller changes the terms: applied at once to an available contract,
 //	                                       kept as future terms of a running one and applied when it closes)
 //
@@ -376,6 +377,10 @@ func sellerExec(tr *vh.Transcript, ops []string) {
 				setC(c, m)
 				go w.chain.Emit(c.Addr, "cipherTextUpdated", c.EncrValidatorURL)
 			}
+		case "otherevent": // an event of the contract that the node has no handler for (the seller claims funds)
+			if c := w.chain.Get(sellerAddr(f[1])); c != nil {
+				go w.chain.Emit(c.Addr, "fundsClaimed")
+			}
 		case "minerdown": // the miner disconnects; @full / @partial / @free pick a miner by its role for c1
 			id := w.pickMiner(f[1])
 			w.pending = append(w.pending, w.describeLeaving(id))
@@ -541,6 +546,8 @@ func sellerGen(r *vh.Rng) []string {
 			ops = append(ops, fmt.Sprintf("destupdate %s payload=%s", c, vh.Pick(r, kinds)))
 		case k < 60:
 			ops = append(ops, "restart")
+		case k < 63:
+			ops = append(ops, "otherevent "+c)
 		case k < 68:
 			ops = append(ops, fmt.Sprintf("termsupdate %s len=%d hr=%d", c, vh.Pick(r, []int{120, 240, 300, 600}), vh.Pick(r, []int{1000, 2000, 500})))
 			newTerms[c] = true
